@@ -187,7 +187,11 @@ static int ccstub(int argc, char **argv, const char *base) {
             return 0;
         }
     }
-    if (is_probe(argc, argv)) return 1;
+    /* a real step always names its output; only bare probes are refused (a
+     * hostile *option* such as -? or -v must not be mistaken for a probe) */
+    int has_out = 0;
+    for (int i = 1; i + 1 < argc; i++) if (!strcmp(argv[i], "-o")) has_out = 1;
+    if (!has_out && is_probe(argc, argv)) return 1;
     record(argc, argv);
     const char *out = NULL, *mf = NULL;
     struct buf ins = {0};
